@@ -453,13 +453,15 @@ theorem stepLiteralTail_ok (hP : C.P.NoPanic) (hL : C.P.LangNonEmpty) {x : Ectx}
               split
               · next h => split at h <;> simp_all
               · trivial
-              · exact resOK_emit hx hs hp (by trivial) _ _
-      · exact resOK_emit hx hs hp (by trivial) _ _
+              · split
+                · trivial
+                · next hdt => exact resOK_emit hx hs hp (by simpa [litShape, not_or] using hdt) _ _
+      · exact resOK_emit hx hs hp (by exact ⟨by decide, by decide⟩) _ _
 
 theorem emitOfNumeric_ok {x : Ectx} (hx : XOk C.trig x) (hs : x.subj.isSome) (hp : x.pred.isSome) (env : Env)
     {r : Ttl.Res (Ttl.NumKind × List Nat)} (h : r ≠ .panic) : ResOK C e (emitOfNumeric x env r) := by
   cases r with
-  | ok v rest => obtain ⟨k, lex⟩ := v; exact resOK_emit hx hs hp (by trivial) _ _
+  | ok v rest => obtain ⟨k, lex⟩ := v; exact resOK_emit hx hs hp (by cases k <;> exact ⟨by decide, by decide⟩) _ _
   | err k => trivial
   | panic => exact absurd rfl h
 
